@@ -47,7 +47,7 @@ CFG = {
     "technique": "Coq proof (finite table lemmas by vm_compute + unbounded lifting over sign grids) + vm_compute "
                  "correspondence check against the real MarchingCanvas",
     "design_ref": "DESIGN.md §4 C09",
-    "n_quick": 40, "n_thorough": 400,
+    "n_quick": 20, "n_thorough": 400,
     "search_n": 80,
     "harness_timeout": 3000,
     "rule": "unions (CombineFields) and sums (repeated AddField) of 1-4 spheres / boxes (1/3 lattice aligned) / capsules "
@@ -59,11 +59,17 @@ CFG = {
             "samples span exactly 100m-1..100m+100 and 100m..100m+99 (through a whole block, incl. negative blocks), a tilted "
             "capsule 101-260 cells long entering before a block boundary, one capsule diagonal in a coordinate plane (>100 cells "
             "on both axes), and 12 short boxes whose lowest/highest below-cutoff sample lies exactly on index 0 / 99 of a block "
-            "for every axis and sign; 1/10 of the random shapes is such a long thin shape. Distinct by input; non-trivial = at least one output triangle",
+            "for every axis and sign; 1/10 of the random shapes is such a long thin shape; 18 unions (overlapping / nested / disjoint members x cutoff 0, "
+            "0.5, 1.5 cells below zero x CombineFields / one AddField per member) judged against the independent reference field. Distinct by input; non-trivial = at least one output triangle",
     "trusted": ["sign grid = implementation's own field functions re-evaluated by the harness at the positions and in the "
                 "accumulation order of addFloat1Range (canvas storage is unexported)",
                 "weld buckets (modeling.Vector3ToInt(position, 3)) of output vertices and of the crossing points are computed "
                 "in Go; crossing points by the formula of interpolateVerts in all eight cell/direction variants",
+                "independent reference field (harness/cmd/c09/reference.go: closed-form distances of sphere / box / capsule and "
+                "their min / sum combination written out in plain float64, nothing of math/sdf or CombineFields called): lattice "
+                "samples of the implementation's field functions equal it (1e-9), every output vertex of a union or single "
+                "member has |reference - cutoff| <= strength * one cell, enclosed volume lies between the numbers of cells with "
+                "8 and with >= 1 below-cutoff corners of the reference sign grid",
                 "harness-side float oracles: enclosed volume > 0, every output vertex equals (1e-9) the crossing point of a "
                 "grid edge with a sign change at parameter in [0,1], per-triangle orientation against the sign change"],
     "modelled": ["one cell of marchFloat1BlockPosition (case index, table row, cube edge -> grid edge) with tables generated "
